@@ -13,6 +13,7 @@ package actionlint
 
 import (
 	"fmt"
+	"os"
 	"regexp"
 	"strings"
 	"testing"
@@ -344,6 +345,59 @@ func TestVerifC07(t *testing.T) {
 					}
 					r.Class(class, true)
 				}
+			}
+		}
+	}
+	// ---- the same over every locatable scalar of the repository's own workflows (ok, examples, err)
+	repo := os.Getenv("VERIF_REPO")
+	if repo == "" {
+		repo = "/repo"
+	}
+	corpus := vCorpusCatalogues(repo, false)
+	r.Bounds["corpus_workflows"] = len(corpus)
+	if len(corpus) < 100 {
+		r.HarnessError("corpus of workflows too small: %d", len(corpus))
+	}
+	for _, c := range corpus {
+		for _, p := range c.Scalars {
+			lineText := c.Lines[p.Line-1]
+			inFlow := strings.ContainsAny(lineText[:p.Col-1], "[{")
+			for quote := 0; quote <= 2; quote++ {
+				if quote == 0 && inFlow {
+					continue
+				}
+				idx++
+				if !r.Mine(idx) {
+					continue
+				}
+				if idx%1024 == 0 && r.Expired() {
+					return
+				}
+				spaces := int(idx % 3)
+				content := "${{" + strings.Repeat(" ", spaces) + "nosuchvar }}"
+				scalar, qoff := c07Quote(quote, content)
+				src := c.Replace(p, scalar)
+				res := vLint(src, nil)
+				r.Evaluations++
+				r.Transitions++
+				r.Validated++
+				wantCol := p.Col + qoff + 3 + spaces
+				hit := false
+				for _, d := range vDiags(res.Errs) {
+					if !undef.MatchString(d.Msg) {
+						continue
+					}
+					hit = true
+					if d.Line != p.Line || d.Col != wantCol {
+						vkey := "position:corpus:" + p.NPath + ":" + c07QuoteNames[quote]
+						if c07RawMatrixValue(p.NPath) {
+							vkey = fmt.Sprintf("position:field:raw-matrix-value:%s:line%+d:col%+d", c07QuoteNames[quote], d.Line-p.Line, d.Col-wantCol)
+						}
+						r.Violation(vkey, fmt.Sprintf("%s %s (%s, %d spaces after ${{): variable is at %d:%d, diagnostic reported at %d:%d", c.Seed, p.Path, c07QuoteNames[quote], spaces, p.Line, wantCol, d.Line, d.Col),
+							map[string]any{"desc": fmt.Sprintf("corpus %s %s", c.Seed, p.Path), "src": src, "line": p.Line, "col": wantCol, "msg": undef.String(), "class": "corpus"})
+					}
+				}
+				r.Class(fmt.Sprintf("corpus-position/reported=%v", hit), hit)
 			}
 		}
 	}
